@@ -8,7 +8,16 @@ recurs on many paths; DIV/MUL on two symbolic operands are abstracted by halmos 
 f_evm_bvmul_256), which makes paths that are feasible for the branching solver but unsatisfiable
 after refinement -- these are the queries whose cores populate the cache.
 
-Child mode:  python -m harness.props.C16_e2e --child <project> <0|1> <out.json>
+A leaf may also be STUCK ('J': JUMP to a symbolic destination -> halmos cannot continue the path): run_test
+then poses the path's feasibility query AS IS (un-refined) -- the consumer of Model/CacheTestModel.v that must
+not be answered from the cache, because the cache holds cores that are unsat only after refinement.
+
+In `sync` mode the child makes the solver answer every assertion query (and its callback run) before the engine
+takes the next path -- one of the legal interleavings, the one in which the cache is as full as it can be when
+a later path is looked up; the run is then a sequential history and is compared, consumer by consumer, with
+the extracted test_run of the model (entry c16_test) fed with the solver replies the implementation saw.
+
+Child mode:  python -m harness.props.C16_e2e --child <project> <0|1> <out.json> <sync 0|1>
 """
 import json
 import os
@@ -50,8 +59,10 @@ def asm(items):
     return out
 
 
+LEAVES = ("P", "S", "J")
 X = [("push", 1, 4), "CALLDATALOAD"]
 Y = [("push", 1, 36), "CALLDATALOAD"]
+W = [("push", 1, 68), "CALLDATALOAD"]     # third argument: conditions on it never interact with those on x, y
 
 
 def cond_code(c):
@@ -73,11 +84,27 @@ def cond_code(c):
         return Y + X + ["MUL", ("push", 1, c[1]), "EQ"]      # x * y == c
     if k == "mulodd":
         return [("push", 1, 1)] + Y + X + ["MUL", ("push", 1, 1), "AND", "EQ"]   # (x*y) & 1 == 1
+    if k == "weq":
+        return [("push", 1, c[1])] + W + ["EQ"]
+    if k == "wlt":
+        return [("push", 1, c[1])] + W + ["LT"]            # w < c
+    if k == "wmask":
+        return [("push", 1, c[2] & c[1]), ("push", 1, c[1])] + W + ["AND", "EQ"]
+    if k == "mulcomm":
+        return X + Y + ["MUL"] + Y + X + ["MUL", "EQ"]       # x*y == y*x: always true, not for the abstraction
+    if k == "divle":
+        return X + Y + X + ["DIV", "GT", "ISZERO"]           # not (x / y > x): always true, not for the abstraction
     raise ValueError(k)
 
 
-def cond_eval(c, x, y):
+def cond_eval(c, x, y, w=0):
     k = c[0]
+    if k == "weq":
+        return w == c[1]
+    if k == "wlt":
+        return w < c[1]
+    if k == "wmask":
+        return (w & c[1]) == (c[2] & c[1])
     if k == "ylt":
         return y < c[1]
     if k == "ygt":
@@ -94,19 +121,24 @@ def cond_eval(c, x, y):
         return (x * y) & M256 == c[1]
     if k == "mulodd":
         return (x * y) & 1 == 1
+    if k in ("mulcomm", "divle"):
+        return True
     raise ValueError(k)
 
 
 def tree_code(tree, prefix):
-    """tree = 'P' | 'S' | [cond, if_true, if_false]; returns items; leaf labels are numbered in order"""
+    """tree = 'P' (panic) | 'S' (stop) | 'J' (stuck: jump to a symbolic destination) | [cond, if_true, if_false];
+    returns items; leaf labels are numbered in order"""
     items = []
     leaves = []
 
     def go(t, path):
-        if t in ("P", "S"):
+        if t in LEAVES:
             leaves.append((path, t))
             if t == "S":
                 items.append("STOP")
+            elif t == "J":
+                items.extend(Y + X + ["ADD", "JUMP"])      # destination x + y: NotConcreteError, the path is stuck
             else:
                 items.extend([("push", 32, 0x4E487B71 << 224), "PUSH0", "MSTORE", ("push", 1, 1), ("push", 1, 4), "MSTORE", ("push", 1, 0x24), "PUSH0", "REVERT"])
             return
@@ -121,12 +153,12 @@ def tree_code(tree, prefix):
     return items, leaves
 
 
-def leaf_of(tree, x, y):
+def leaf_of(tree, x, y, w=0):
     path = ""
     t = tree
-    while t not in ("P", "S"):
+    while t not in LEAVES:
         c, a, b = t
-        if cond_eval(tuple(c), x, y):
+        if cond_eval(tuple(c), x, y, w):
             t, path = a, path + "1"
         else:
             t, path = b, path + "0"
@@ -138,7 +170,7 @@ def make_project(root, trees):
     from eth_hash.auto import keccak
 
     os.makedirs(os.path.join(root, "out", "T.sol"), exist_ok=True)
-    sigs = [f"check_{k}(uint256,uint256)" for k in range(len(trees))]
+    sigs = [f"check_{k}(uint256,uint256,uint256)" for k in range(len(trees))]
     sels = [keccak(s.encode())[:4] for s in sigs]
     items = ["PUSH0", "CALLDATALOAD", ("push", 1, 0xE0), "SHR"]
     for k, sel in enumerate(sels):
@@ -153,7 +185,7 @@ def make_project(root, trees):
     cr = asm([("push", 2, n), ("push", 2, 13), "PUSH0", "CODECOPY", ("push", 2, n), "PUSH0", "RETURN"])
     assert len(cr) == 13
     cr += rt
-    abi = [{"type": "function", "name": f"check_{k}", "inputs": [{"name": "x", "type": "uint256", "internalType": "uint256"}, {"name": "y", "type": "uint256", "internalType": "uint256"}], "outputs": [], "stateMutability": "nonpayable"} for k in range(len(trees))]
+    abi = [{"type": "function", "name": f"check_{k}", "inputs": [{"name": "x", "type": "uint256", "internalType": "uint256"}, {"name": "y", "type": "uint256", "internalType": "uint256"}, {"name": "w", "type": "uint256", "internalType": "uint256"}], "outputs": [], "stateMutability": "nonpayable"} for k in range(len(trees))]
     art = {
         "abi": abi,
         "bytecode": {"object": "0x" + cr.hex(), "sourceMap": "", "linkReferences": {}},
@@ -178,16 +210,85 @@ def make_project(root, trees):
 
 # ----------------------------------------------------------------- child: halmos with monitors
 
-def child(project, cache, outfile):
+def child(project, cache, outfile, sync=False):
     import gc
     import threading
+    import time
 
     import halmos.__main__ as hm
     import halmos.sevm as sevm
     import halmos.solve as solve
 
-    state = {"fn": "setup", "ids": {}, "clashes": [], "hits": {}, "queries": {}, "results": []}
+    state = {"fn": "setup", "ids": {}, "clashes": [], "hits": {}, "queries": {}, "results": [],
+             "in_test": False, "in_assert": False, "consumers": [], "low": [], "cb_done": 0}
     lock = threading.Lock()
+
+    # ---- the consumers of the solver, in the order run_test creates them (main thread)
+    orig_pc = hm.PathContext
+
+    def PathContext(**kw):
+        pc = orig_pc(**kw)
+        if state["in_test"]:
+            q = kw["query"]
+            state["consumers"].append({"pid": kw["path_id"], "kind": "assert" if state["in_assert"] else "stuck",
+                                       "ids": [str(i) for i in q.assertions],
+                                       "would_hit": bool(orig_check(q, [list(c) for c in kw["solving_ctx"].unsat_cores]))})
+        return pc
+
+    hm.PathContext = PathContext
+
+    # ---- every solver invocation (any thread): what was asked (path, refined?) and what came back
+    orig_low = solve.solve_low_level
+
+    def solve_low_level(path_ctx):
+        rec = {"pid": path_ctx.path_id, "refined": bool(path_ctx.is_refined)}
+        try:
+            out = orig_low(path_ctx)
+        except BaseException as e:
+            rec["exc"] = type(e).__name__
+            with lock:
+                state["low"].append(rec)
+            raise
+        res = str(out.result)
+        rec.update(result=res if res in ("sat", "unsat", "unknown") else "err",
+                   valid=(bool(out.model.is_valid) if out.model is not None else None),
+                   core=(None if out.unsat_core is None else [str(i) for i in out.unsat_core]))
+        with lock:
+            state["low"].append(rec)
+        return out
+
+    solve.solve_low_level = solve_low_level
+    hm.solve_low_level = solve_low_level
+
+    # ---- sync mode: the answer to an assertion query (and its callback) arrives before the next path is taken
+    orig_cb = hm.CounterexampleHandler._solve_end_to_end_callback
+
+    def callback(self, *a, **kw):
+        try:
+            return orig_cb(self, *a, **kw)
+        finally:
+            with lock:
+                state["cb_done"] += 1
+
+    hm.CounterexampleHandler._solve_end_to_end_callback = callback
+    orig_hav = hm.CounterexampleHandler.handle_assertion_violation
+
+    def handle_assertion_violation(self, *a, **kw):
+        n0 = len(self.submitted_futures)
+        state["in_assert"] = True
+        try:
+            orig_hav(self, *a, **kw)
+        finally:
+            state["in_assert"] = False
+        if sync and len(self.submitted_futures) > n0:
+            deadline = time.time() + 120
+            while time.time() < deadline:
+                with lock:
+                    if state["cb_done"] >= len(self.submitted_futures):
+                        break
+                time.sleep(0.002)
+
+    hm.CounterexampleHandler.handle_assertion_violation = handle_assertion_violation
     orig_to_smt2 = sevm.Path.to_smt2
 
     def to_smt2(self, args):
@@ -220,7 +321,11 @@ def child(project, cache, outfile):
 
     def run_test(ctx):
         state["fn"] = ctx.info.name
-        res = orig_run_test(ctx)
+        state.update(in_test=True, consumers=[], low=[], cb_done=0)
+        try:
+            res = orig_run_test(ctx)
+        finally:
+            state["in_test"] = False
         gc.collect()
 
         def models(ms):
@@ -237,6 +342,12 @@ def child(project, cache, outfile):
             "outputs": sorted(str(o.result) for o in ctx.solver_outputs),
             "valid": models(ctx.valid_counterexamples), "invalid": models(ctx.invalid_counterexamples),
             "cores": len(ctx.solving_ctx.unsat_cores),
+            "num_paths": list(res.num_paths) if res.num_paths else None,
+            "outs": [{"pid": o.path_id, "result": (str(o.result) if str(o.result) in ("sat", "unsat", "unknown") else "err"),
+                      "valid": (bool(o.model.is_valid) if o.model is not None else None),
+                      "core": (None if o.unsat_core is None else [str(i) for i in o.unsat_core])} for o in ctx.solver_outputs],
+            "final_cores": [[str(i) for i in c] for c in ctx.solving_ctx.unsat_cores],
+            "consumers": state["consumers"], "low": state["low"],
         })
         state["fn"] = "between-tests"
         return res
@@ -259,14 +370,53 @@ def child(project, cache, outfile):
 
 # ----------------------------------------------------------------- parent
 
-POOL = [("ylt", 1), ("ylt", 2), ("ygt", 0), ("xeq", 3), ("xeq", 7), ("xlt", 9), ("mask", 3, 1), ("diveq", 5), ("diveq", 7), ("muleq", 6), ("mulodd",)]
+POOL = [("ylt", 1), ("ylt", 2), ("ygt", 0), ("xeq", 3), ("xeq", 7), ("xlt", 9), ("mask", 3, 1), ("diveq", 5), ("diveq", 7), ("muleq", 6), ("mulodd",),
+        ("mulcomm",), ("divle",)]
+ABSTRACTED = ("diveq", "muleq", "mulodd", "mulcomm", "divle")
 
 
 def gen_tree(r, depth, pool):
     if depth == 0 or (depth <= 2 and r.random() < 0.2):
-        return "P" if r.random() < 0.65 else "S"
+        u = r.random()
+        return "P" if u < 0.5 else ("J" if u < 0.75 else "S")
     c = list(r.choice(pool))
     return [c, gen_tree(r, depth - 1, pool), gen_tree(r, depth - 1, pool)]
+
+
+# conjunctions that are contradictory under the real mul/div and satisfiable for halmos' uninterpreted abstraction:
+# the branching solver lets the engine in, the refined assertion query is unsat, its core is what the cache stores
+GADGETS = [
+    [(("mulcomm",), False)],                              # x*y != y*x
+    [(("divle",), False)],                                # x / y > x
+    [(("ylt", 1), True), (("diveq", 5), True)],           # y == 0 and x / y == 5
+    [(("mask", 1, 0), True), (("mulodd",), True)],        # x even and x*y odd
+    [(("xlt", 4), True), (("diveq", 5), True)],           # x < 4 and x / y == 5
+]
+REGULAR = [("weq", 1), ("weq", 2), ("wlt", 5), ("wlt", 9), ("wmask", 3, 1), ("wmask", 6, 2), ("wmask", 8, 8)]
+
+
+def gen_gadget_tree(r, depth):
+    """a frame of ordinary conditions, one gadget, and below its contradictory side a subtree of ordinary
+    conditions whose leaves panic, get stuck or stop: the same stored core is met again by later paths of
+    every kind, in both exploration orders"""
+    sub = gen_tree(r, depth, r.sample(REGULAR, 4))
+    for cond, side in reversed(r.choice(GADGETS)):
+        other = gen_tree(r, r.choice([0, 1]), REGULAR)
+        sub = [list(cond), sub, other] if side else [list(cond), other, sub]
+    for _ in range(r.choice([0, 0, 1])):
+        other = gen_tree(r, r.choice([0, 1, 2]), POOL)
+        c = list(r.choice([("xlt", 9), ("ylt", 2), ("mask", 6, 2), ("ygt", 0)]))
+        sub = [c, sub, other] if r.random() < 0.5 else [c, other, sub]
+    return sub
+
+
+def gen_project_trees(r, tier):
+    pool = r.sample(POOL, r.randint(3, 5))
+    if not any(c[0] in ABSTRACTED for c in pool):
+        pool.append(r.choice([("diveq", 5), ("mulcomm",), ("divle",)]))
+    trees = [gen_gadget_tree(r, r.choice([2, 3] if tier == "quick" else [3, 4])) for _ in range(2 if tier == "quick" else 3)]
+    trees.append(gen_tree(r, r.choice([3, 4, 4] if tier == "quick" else [4, 5, 5]), pool))
+    return trees
 
 
 def corpus_trees():
@@ -274,14 +424,22 @@ def corpus_trees():
     bad = lambda leaf: [["ylt", 1], [["diveq", 5], leaf, "S"], "S"]  # noqa: E731
     t0 = [["xlt", 9], [["xeq", 3], bad("P"), bad("P")], [["mask", 3, 1], bad("P"), [["xeq", 7], "P", "S"]]]
     t1 = [["ylt", 2], [["ygt", 0], [["xlt", 9], [["diveq", 5], "P", "S"], [["diveq", 5], "S", "P"]], [["diveq", 7], "P", [["diveq", 5], "P", "S"]]], [["mask", 1, 0], [["mulodd"], "P", "S"], [["mulodd"], "P", "S"]]]
-    return [t0, t1]
+    # stuck paths below a condition that is contradictory only after refinement, next to an assertion path with
+    # the same condition (both exploration orders): the witness of C16_refined_core_not_abstract_refuted.  The
+    # assertion query is unsat once refined and its core is stored; the stuck path contains that core and is
+    # feasible as posed -- it must be reported ([ERROR] stuck) with and without the cache
+    t2 = [["mulcomm"], "S", [["xlt", 9], "J", "P"]]
+    t3 = [["mulcomm"], "S", [["xlt", 9], "P", "J"]]
+    t4 = [["ylt", 1], [["diveq", 5], [["xeq", 3], "P", [["xeq", 7], "J", [["mask", 3, 1], "J", "P"]]], "S"], "S"]
+    t5 = [["divle"], [["xlt", 9], "S", "J"], [["xlt", 9], [["xeq", 3], "J", "P"], "J"]]
+    return [t0, t1, t2, t3, t4, t5]
 
 
-def run_child(bindir, project, cache, timeout):
+def run_child(bindir, project, cache, timeout, sync=False):
     fd, out = tempfile.mkstemp(suffix=".json")
     os.close(fd)
     env = dict(os.environ, PATH=bindir + os.pathsep + os.environ.get("PATH", ""))
-    p = subprocess.run([sys.executable, "-m", "harness.props.C16_e2e", "--child", project, "1" if cache else "0", out],
+    p = subprocess.run([sys.executable, "-m", "harness.props.C16_e2e", "--child", project, "1" if cache else "0", out, "1" if sync else "0"],
                        capture_output=True, text=True, env=env, timeout=timeout, cwd=os.path.dirname(os.path.dirname(os.path.dirname(os.path.abspath(__file__)))))
     try:
         with open(out) as f:
@@ -293,35 +451,97 @@ def run_child(bindir, project, cache, timeout):
     return res
 
 
-def run_e2e(rep, tier, r, fail):
-    nproj = 2 if tier == "quick" else 6
+EXIT_OF_VERDICT = {0: 1, 1: 5, 2: 2, 3: 3, 4: 4, 5: 0}   # model verdict code -> halmos Exitcode (FAIL, EXCEPTION, TIMEOUT, STUCK, REVERT_ALL, PASS)
+
+
+def reply_of_low(l):
+    """a record of the child's solve_low_level log -> reply dict of the model encoding"""
+    if l is None or "exc" in l or l["result"] == "err":
+        return {"kind": "err"}
+    if l["result"] == "sat":
+        return {"kind": "sat", "valid": bool(l["valid"]), "m": 0}
+    if l["result"] == "unsat":
+        return {"kind": "unsat", "core": l["core"]}
+    return {"kind": "unknown"}
+
+
+def model_test_call(res, cache):
+    """one finished test of a sync run -> the c16_test call and what the implementation showed"""
+    from harness.props.C16 import enc_reply, enc_strlist
+
+    lows = {}
+    for l in res["low"]:
+        lows.setdefault((l["pid"], l["refined"]), l)
+    arg = []
+    n = 0
+    for c in res["consumers"]:
+        la, lr = lows.get((c["pid"], False)), lows.get((c["pid"], True))
+        arg += [0 if c["kind"] == "assert" else 1] + enc_strlist(c["ids"]) + enc_reply(reply_of_low(la)) + enc_reply(reply_of_low(lr)) + [1 if lr is not None else 0]
+        n += 1
+    for _ in range(res["num_paths"][1]):
+        arg += [2] + enc_strlist([]) + [5, 5, 0]
+        n += 1
+    impl = {
+        "exit": res["exitcode"], "stuck": res["num_paths"][2], "normal": res["num_paths"][1],
+        "outs": [reply_of_low(o) for o in res["outs"]],
+        "skipped": [not any(l["pid"] == c["pid"] for l in res["low"]) for c in res["consumers"]],
+        "cores": res["final_cores"],
+    }
+    return ("c16_test", [1 if cache else 0, n] + arg), impl
+
+
+def decode_model_test(v):
+    from harness.props.C16 import dec_reply, dec_strs
+
+    out = {"exit": EXIT_OF_VERDICT[v[0]], "stuck": v[1], "normal": v[2]}
+    i = 4
+    outs = []
+    for _ in range(v[3]):
+        rr, i = dec_reply(v, i)
+        outs.append(rr)
+    out["outs"] = outs
+    n = v[i]
+    out["skipped"] = [bool(x) for x in v[i + 1:i + 1 + n]]
+    i += 1 + n
+    nc = v[i]
+    i += 1
+    cores = []
+    for _ in range(nc):
+        c, i = dec_strs(v, i)
+        cores.append(c)
+    out["cores"] = cores
+    return out
+
+
+def run_e2e(rep, tier, r, fail, m=None):
+    # quick: the corpus and two random projects in sync mode, a random project with the solver racing the engine
+    nproj = 4 if tier == "quick" else 12
     projects = []
     tmp = tempfile.mkdtemp(prefix="c16_e2e_")
     for k in range(nproj):
         if k == 0:
             trees = corpus_trees()
         else:
-            pool = r.sample(POOL, r.randint(3, 5))
-            if not any(c[0] in ("diveq", "muleq", "mulodd") for c in pool):
-                pool.append(("diveq", 5))
-            trees = [gen_tree(r, r.choice([3, 4, 4] if tier == "quick" else [4, 5, 5]), pool) for _ in range(2 if tier == "quick" else 3)]
+            trees = gen_project_trees(r, tier)
         root = os.path.join(tmp, f"p{k}")
         bindir = make_project(root, trees)
-        projects.append((root, bindir, trees))
-    jobs = [(b, p, c) for p, b, _ in projects for c in (True, False)]
+        projects.append((root, bindir, trees, k % 4 != 3))
+    jobs = [(b, p, c, sy) for p, b, _, sy in projects for c in (True, False)]
     with ThreadPoolExecutor(min(12, len(jobs))) as ex:
-        outs = list(ex.map(lambda j: run_child(j[0], j[1], j[2], 280 if tier == "quick" else 900), jobs))
-    tot_hits = tot_q = tot_ids = 0
-    for k, (root, _, trees) in enumerate(projects):
+        outs = list(ex.map(lambda j: run_child(j[0], j[1], j[2], 280 if tier == "quick" else 900, j[3]), jobs))
+    tot_hits = tot_q = tot_ids = tot_stuck = tot_model = 0
+    scenario = False
+    mcalls, mimpl, mwhere = [], [], []
+    for k, (root, _, trees, sync) in enumerate(projects):
         on, off = outs[2 * k], outs[2 * k + 1]
         hits = sum((on.get("hits") or {}).values())
         tot_hits += hits
         tot_q += sum((on.get("queries") or {}).values())
         tot_ids += sum((on.get("ids") or {}).values())
-        rep.count("case_kind", "e2e")
+        rep.count("case_kind", "e2e:" + ("sync" if sync else "racing"))
         rep.count("e2e_hits", min(hits, 5))
-        rep.case({"kind": "e2e", "trees": trees}, nontrivial=hits > 0)
-        case = {"kind": "e2e", "trees": trees}
+        rep.case({"kind": "e2e", "trees": trees, "sync": sync}, nontrivial=hits > 0)
+        case = {"kind": "e2e", "trees": trees, "sync": sync}
         if "error" in on or "error" in off:
             fail("broken-tie", f"halmos run on fabricated project {k} failed: {(on.get('error') or off.get('error'))[-600:]}", case)
             continue
@@ -338,19 +558,42 @@ def run_e2e(rep, tier, r, fail):
         for name in sorted(ra):
             t = trees[int(name.split("_")[1])]
             a, b_ = ra[name], rb[name]
+            tcase = dict(case, test=name, tree=t)
 
             def leaves(res, name=name, t=t):
                 out = set()
                 for mdl in res["valid"] + res["invalid"]:
-                    x, y = mdl.get("x", 0), mdl.get("y", 0)
-                    out.add(leaf_of(t, x, y))
+                    out.add(leaf_of(t, mdl.get("x", 0), mdl.get("y", 0), mdl.get("w", 0)))
                 return out
 
             la, lb = leaves(a), leaves(b_)
             for mode, ls in (("on", la), ("off", lb)):
                 wrong = [l for l in ls if l[1] != "P"]
                 if wrong:
-                    fail("broken-tie", f"project {k} {name} (cache {mode}): a counterexample does not reach a Panic leaf: {wrong}", case)
+                    fail("broken-tie", f"project {k} {name} (cache {mode}): a counterexample does not reach a Panic leaf: {wrong}", tcase)
+            # ---- the stuck paths: confirmed by the solver on the query as posed, with and without the cache
+            stuck_a, stuck_b = a["num_paths"][2], b_["num_paths"][2]
+            tot_stuck += stuck_b
+            rep.count("e2e_stuck_paths", min(stuck_b, 4))
+
+            def stuck_gave_up(res):
+                pids = {c["pid"] for c in res["consumers"] if c["kind"] == "stuck"}
+                return any(l["pid"] in pids and ("exc" in l or l["result"] in ("unknown", "err")) for l in res["low"])
+
+            for c in a["consumers"]:
+                if c["kind"] == "stuck" and c["would_hit"]:
+                    rep.count("e2e_stuck_path_contains_stored_core", name)
+                    if any(l["pid"] == c["pid"] and not l["refined"] and l.get("result") == "sat" for l in a["low"]):
+                        scenario = True
+            if stuck_a != stuck_b:
+                if stuck_gave_up(a) or stuck_gave_up(b_):
+                    rep.count("e2e_solver_gave_up_on_stuck_path", name)
+                else:
+                    dropped = [c for c in a["consumers"] if c["kind"] == "stuck" and not any(l["pid"] == c["pid"] for l in a["low"])]
+                    fail("failing-input", f"project {k} {name}: {stuck_b} stuck path(s) reported without the cache (exit {b_['exitcode']}), {stuck_a} with it (exit {a['exitcode']})"
+                         + (f"; with the cache the feasibility query of stuck path(s) {[c['pid'] for c in dropped]} never reached the solver (ids {[c['ids'] for c in dropped]}, cores {a['final_cores']})" if dropped else "")
+                         + f"; tree {t}", tcase, sig={"observable": "on-vs-off-e2e", "what": "stuck-paths"})
+                    continue
             timeouts_off = b_["outputs"].count("unknown") + b_["outputs"].count("err")
             timeouts_on = a["outputs"].count("unknown") + a["outputs"].count("err")
             # the number of `unsat` outputs is not compared: halmos' 1 ms branching timeout makes the set of
@@ -368,12 +611,33 @@ def run_e2e(rep, tier, r, fail):
                     rep.count("e2e_solver_gave_up_with_cache", name)
                     continue
                 fail("failing-input", f"project {k} {name}: verdict/counterexamples differ: cache on exit={a['exitcode']} outputs={a['outputs']} leaves={sorted(la)}; cache off exit={b_['exitcode']} outputs={b_['outputs']} leaves={sorted(lb)}",
-                     dict(case, test=name), sig={"observable": "on-vs-off-e2e"})
+                     tcase, sig={"observable": "on-vs-off-e2e"})
+            # ---- sync runs are sequential histories: the model's test_run on the replies the implementation saw
+            if sync and m is not None:
+                for cache, res in ((True, a), (False, b_)):
+                    call, impl = model_test_call(res, cache)
+                    mcalls.append(call)
+                    mimpl.append(impl)
+                    mwhere.append((k, name, cache, tcase))
+    if mcalls:
+        for (k, name, cache, tcase), impl, mv in zip(mwhere, mimpl, m.parallel_batch(mcalls)):
+            tot_model += 1
+            mo = decode_model_test(mv) if mv else None
+            if mo != impl:
+                diff = sorted(key for key in impl if mo is None or mo.get(key) != impl[key])
+                fail("broken-tie", f"project {k} {name} (cache {'on' if cache else 'off'}): run_test and the model's test_run differ in {diff}: implementation {impl}, model {mo}",
+                     dict(tcase, cache=cache, implementation=impl, model=mo))
     rep.coverage["L3_queries"] = tot_q
     rep.coverage["L3_cache_hits"] = tot_hits
     rep.coverage["L3_ids_monitored"] = tot_ids
+    rep.coverage["L3_stuck_paths_confirmed"] = tot_stuck
+    rep.coverage["L3_tests_replayed_in_model"] = tot_model
+    rep.coverage["refined_core_witness_replayed_on_implementation"] = scenario
     if tot_hits == 0:
         fail("broken-tie", "no cache hit in any end-to-end run (generator does not exercise the cache)", {"kind": "e2e"})
+    if not scenario:
+        fail("broken-tie", "the witness of C16_refined_core_not_abstract_refuted is not exercised: no stuck path that contains a stored (refined) core "
+             "and is confirmed feasible by the solver in any end-to-end run", {"kind": "e2e", "trees": projects[0][2]})
     import shutil
 
     shutil.rmtree(tmp, ignore_errors=True)
@@ -381,4 +645,4 @@ def run_e2e(rep, tier, r, fail):
 
 if __name__ == "__main__":
     if len(sys.argv) >= 5 and sys.argv[1] == "--child":
-        child(sys.argv[2], sys.argv[3] == "1", sys.argv[4])
+        child(sys.argv[2], sys.argv[3] == "1", sys.argv[4], len(sys.argv) > 5 and sys.argv[5] == "1")
